@@ -420,21 +420,23 @@ impl GraphEngine {
         edge_type: Option<&str>,
         direction: Direction,
     ) -> (f64, u64) {
-        let edges_key = match direction {
-            Direction::Outgoing | Direction::Both => Self::outgoing_edges_key(from),
-            Direction::Incoming => Self::incoming_edges_key(from),
-        };
+        let mut edge_ids = Vec::new();
+        if direction != Direction::Incoming {
+            edge_ids.extend(self.get_edge_list(&Self::outgoing_edges_key(from)));
+        }
+        if direction != Direction::Outgoing {
+            edge_ids.extend(self.get_edge_list(&Self::incoming_edges_key(from)));
+        }
+        let mut best: Option<(f64, u64)> = None;
 
-        for edge_id in self.get_edge_list(&edges_key) {
+        for edge_id in edge_ids {
             let Ok(edge) = self.get_edge(edge_id) else {
                 continue;
             };
 
-            let connects = match direction {
-                Direction::Outgoing => edge.to == to,
-                Direction::Incoming => edge.from == to,
-                Direction::Both => edge.to == to || edge.from == to,
-            };
+            // the adjacency list already encodes direction; an undirected edge may be stored either way round
+            let connects =
+                (edge.from == from && edge.to == to) || (edge.to == from && edge.from == to);
 
             if !connects {
                 continue;
@@ -455,10 +457,12 @@ impl GraphEngine {
                 None => default_weight,
             };
 
-            return (weight, edge_id);
+            if best.map_or(true, |b| weight < b.0) {
+                best = Some((weight, edge_id));
+            }
         }
 
-        (default_weight, 0)
+        best.unwrap_or((default_weight, 0))
     }
 }
 
